@@ -405,3 +405,201 @@ Proof.
       * simpl. exists KeyError. reflexivity.
   - unfold find. unfold in_dom. rewrite HD, Hwf. exists KeyError. reflexivity.
 Qed.
+
+(* ---------------------------------------------------------------------------------------------- *)
+(* 5. the naive evaluator (label propagation) computes the component minimum                       *)
+
+Lemma relax1_le l e z : relax1 l e z <= l z.
+Proof.
+  unfold relax1. destruct (Nat.eqb z (fst e)) eqn:E1; simpl.
+  - apply Nat.eqb_eq in E1. subst z. lia.
+  - destruct (Nat.eqb z (snd e)) eqn:E2.
+    + apply Nat.eqb_eq in E2. subst z. lia.
+    + lia.
+Qed.
+
+Lemma fold_relax_le : forall ms l z, fold_left relax1 ms l z <= l z.
+Proof.
+  induction ms as [|e ms IH]; intros l z; simpl.
+  - lia.
+  - pose proof (IH (relax1 l e) z) as H1. pose proof (relax1_le l e z) as H2. lia.
+Qed.
+
+Lemma relax_le ms l z : relax ms l z <= l z.
+Proof. apply fold_relax_le. Qed.
+
+Lemma relax1_fst l a b : relax1 l (a, b) a = Nat.min (l a) (l b).
+Proof. unfold relax1. simpl. rewrite Nat.eqb_refl. reflexivity. Qed.
+
+Lemma relax1_snd l a b : relax1 l (a, b) b = Nat.min (l a) (l b).
+Proof. unfold relax1. simpl. rewrite Nat.eqb_refl. rewrite orb_true_r. reflexivity. Qed.
+
+(* after a round, both ends of every edge are below both old labels *)
+Lemma fold_relax_edge : forall ms l a b, In (a, b) ms ->
+  fold_left relax1 ms l a <= Nat.min (l a) (l b) /\
+  fold_left relax1 ms l b <= Nat.min (l a) (l b).
+Proof.
+  induction ms as [|e ms IH]; intros l a b Hin; simpl.
+  - destruct Hin.
+  - destruct Hin as [-> | Hin].
+    + pose proof (fold_relax_le ms (relax1 l (a, b)) a) as H1.
+      pose proof (fold_relax_le ms (relax1 l (a, b)) b) as H2.
+      rewrite relax1_fst in H1. rewrite relax1_snd in H2. split; assumption.
+    + destruct (IH (relax1 l e) a b Hin) as [H1 H2].
+      pose proof (relax1_le l e a) as Ha. pose proof (relax1_le l e b) as Hb.
+      split; lia.
+Qed.
+
+Lemma relax_edge ms l a b : In (a, b) ms ->
+  relax ms l a <= l b /\ relax ms l b <= l a.
+Proof.
+  intro Hin. destruct (fold_relax_edge ms l a b Hin) as [H1 H2]. unfold relax. split; lia.
+Qed.
+
+(* labels stay inside the class *)
+Lemma relax1_conn ms l a b : In (a, b) ms ->
+  (forall z, conn ms z (l z)) -> forall z, conn ms z (relax1 l (a, b) z).
+Proof.
+  intros Hin Hl z. unfold relax1. simpl fst. simpl snd.
+  assert (Hab : conn ms a b) by (apply rst_step; exact Hin).
+  assert (Hm : forall w, conn ms w a -> conn ms w (Nat.min (l a) (l b))).
+  { intros w Hw. destruct (Nat.min_spec (l a) (l b)) as [[_ ->] | [_ ->]].
+    - apply conn_trans with a; [exact Hw|apply Hl].
+    - apply conn_trans with a; [exact Hw|]. apply conn_trans with b; [exact Hab|apply Hl]. }
+  destruct (Nat.eqb z a) eqn:E1; simpl.
+  - apply Nat.eqb_eq in E1. subst z. apply Hm. apply conn_refl.
+  - destruct (Nat.eqb z b) eqn:E2.
+    + apply Nat.eqb_eq in E2. subst z. apply Hm. apply conn_sym. exact Hab.
+    + apply Hl.
+Qed.
+
+Lemma fold_relax_conn ms : forall ms1 l, (forall a b, In (a, b) ms1 -> In (a, b) ms) ->
+  (forall z, conn ms z (l z)) -> forall z, conn ms z (fold_left relax1 ms1 l z).
+Proof.
+  induction ms1 as [|[a b] ms1 IH]; intros l Hi Hl z; simpl.
+  - apply Hl.
+  - apply IH.
+    + intros a' b' H. apply Hi. right. exact H.
+    + apply relax1_conn; [apply Hi; left; reflexivity|exact Hl].
+Qed.
+
+Lemma relax_conn ms l : (forall z, conn ms z (l z)) -> forall z, conn ms z (relax ms l z).
+Proof. intros Hl z. apply fold_relax_conn; auto. Qed.
+
+Lemma iter_S_r : forall n (f : lbl -> lbl) l, iter (S n) f l = f (iter n f l).
+Proof.
+  induction n as [|n IH]; intros f l.
+  - reflexivity.
+  - change (iter (S (S n)) f l) with (iter (S n) f (f l)). rewrite IH. reflexivity.
+Qed.
+
+Lemma iter_conn ms : forall n z, conn ms z (iter n (relax ms) (fun w => w) z).
+Proof.
+  induction n as [|n IH]; intro z.
+  - apply conn_refl.
+  - rewrite iter_S_r. apply relax_conn. exact IH.
+Qed.
+
+Lemma iter_le_id ms : forall n z, iter n (relax ms) (fun w => w) z <= z.
+Proof.
+  induction n as [|n IH]; intro z.
+  - simpl. lia.
+  - rewrite iter_S_r. pose proof (relax_le ms (iter n (relax ms) (fun w => w)) z) as H.
+    pose proof (IH z). lia.
+Qed.
+
+(* either no edge crosses the boundary of a boolean predicate, or some edge does *)
+Lemma crossing_dec (P : nat -> bool) : forall ms : list (nat * nat),
+  (forall a b, In (a, b) ms -> P a = P b) \/ (exists a b, In (a, b) ms /\ P a <> P b).
+Proof.
+  induction ms as [|[a b] ms IH].
+  - left. intros a b [].
+  - destruct IH as [IH | (a' & b' & Hin & Hne)].
+    + destruct (bool_dec (P a) (P b)) as [E | E].
+      * left. intros a' b' [H | H]; [injection H as <- <-; exact E | apply IH; exact H].
+      * right. exists a, b. split; [left; reflexivity | exact E].
+    + right. exists a', b'. split; [right; exact Hin | exact Hne].
+Qed.
+
+Lemma filter_length_mono (P Q : nat -> bool) : forall vs : list nat,
+  (forall z, P z = true -> Q z = true) -> length (filter P vs) <= length (filter Q vs).
+Proof.
+  intros vs H. induction vs as [|v vs IH]; simpl; [lia|].
+  destruct (P v) eqn:E.
+  - rewrite (H v E). simpl. lia.
+  - destruct (Q v); simpl; lia.
+Qed.
+
+Lemma filter_length_grow (P Q : nat -> bool) : forall (vs : list nat) b,
+  (forall z, P z = true -> Q z = true) -> In b vs -> P b = false -> Q b = true ->
+  length (filter P vs) < length (filter Q vs).
+Proof.
+  intros vs b H. induction vs as [|v vs IH]; intros Hin Pb Qb; simpl.
+  - destruct Hin.
+  - pose proof (filter_length_mono P Q vs H) as Hm.
+    destruct Hin as [-> | Hin].
+    + rewrite Pb, Qb. simpl. lia.
+    + specialize (IH Hin Pb Qb). destruct (P v) eqn:E.
+      * rewrite (H v E). simpl. lia.
+      * destruct (Q v); simpl; lia.
+Qed.
+
+Lemma conn_in_values values ms : (forall a b, In (a, b) ms -> In a values /\ In b values) ->
+  forall x y, conn ms x y -> (In x values <-> In y values).
+Proof.
+  intros Hv x y H. induction H as [u v H | u | u v _ IH | u w v _ IH1 _ IH2].
+  - destruct (Hv u v H). tauto.
+  - tauto.
+  - tauto.
+  - tauto.
+Qed.
+
+Lemma naive_min_is_component_min : forall (values : list nat) (ms : list (nat * nat)) (x : nat),
+  (forall a b, In (a, b) ms -> In a values /\ In b values) -> NoDup values -> In x values ->
+  conn ms x (naive_min values ms x) /\ forall y, conn ms x y -> naive_min values ms x <= y.
+Proof.
+  intros values ms x Hv _ Hx. unfold naive_min. split; [apply iter_conn|].
+  intros y Hc.
+  assert (Hy : In y values) by (apply (conn_in_values values ms Hv x y Hc); exact Hx).
+  set (L := fun k => iter k (relax ms) (fun w => w)).
+  set (P := fun k z => Nat.leb (L k z) y).
+  assert (Hstep : forall k z, L (S k) z <= L k z).
+  { intros k z. unfold L. rewrite iter_S_r. apply relax_le. }
+  assert (Hk : forall k, L k x <= y \/ k + 1 <= length (filter (P k) values)).
+  { induction k as [|k IH].
+    - right. assert (H0 : P 0 y = true) by (unfold P, L; simpl; apply Nat.leb_refl).
+      assert (Hin : In y (filter (P 0) values)) by (apply filter_In; split; assumption).
+      destruct (filter (P 0) values); [destruct Hin | simpl; lia].
+    - destruct IH as [IH | IH].
+      + left. pose proof (Hstep k x). lia.
+      + destruct (crossing_dec (P k) ms) as [Hno | (a & b & Hin & Hne)].
+        * left. pose proof (Hstep k x) as Hs.
+          assert (E : P k x = P k y) by (apply (conn_sound bool (P k) ms Hno x y Hc)).
+          assert (Py : P k y = true).
+          { unfold P. apply Nat.leb_le. unfold L. apply iter_le_id. }
+          rewrite Py in E. unfold P in E. apply Nat.leb_le in E. lia.
+        * right.
+          assert (Hmono : forall z, P k z = true -> P (S k) z = true).
+          { intros z Hz. unfold P in *. apply Nat.leb_le in Hz. apply Nat.leb_le.
+            pose proof (Hstep k z). lia. }
+          assert (Hedge : relax ms (L k) a <= L k b /\ relax ms (L k) b <= L k a)
+            by (apply relax_edge; exact Hin).
+          assert (HS : forall z, L (S k) z = relax ms (L k) z).
+          { intro z. unfold L. rewrite iter_S_r. reflexivity. }
+          destruct (Hv a b Hin) as [Ha Hb].
+          destruct Hedge as [He1 He2]. rewrite <- HS in He1, He2.
+          destruct (P k a) eqn:Pa; destruct (P k b) eqn:Pb; try congruence.
+          -- assert (Qb : P (S k) b = true).
+             { unfold P in *. apply Nat.leb_le in Pa. apply Nat.leb_le. lia. }
+             pose proof (filter_length_grow (P k) (P (S k)) values b Hmono Hb Pb Qb). lia.
+          -- assert (Qa : P (S k) a = true).
+             { unfold P in *. apply Nat.leb_le in Pb. apply Nat.leb_le. lia. }
+             pose proof (filter_length_grow (P k) (P (S k)) values a Hmono Ha Pa Qa). lia. }
+  destruct (Hk (length values)) as [H | H].
+  - exact H.
+  - pose proof (filter_length_mono (P (length values)) (fun _ => true) values
+                  (fun _ _ => eq_refl)) as Hm.
+    assert (Ht : filter (fun _ : nat => true) values = values).
+    { clear. induction values as [|v vs IH]; simpl; [reflexivity | rewrite IH; reflexivity]. }
+    rewrite Ht in Hm. lia.
+Qed.
